@@ -6,9 +6,57 @@ From Coq Require Import String.
 From Coq Require Import List Ascii ZArith Bool Lia Sorting.Permutation.
 From CGV Require Import Base.PyBase Base.PyVal Base.NxGraph Resolve.Bonding Resolve.GraphOps Resolve.SourcePrims
      Resolve.SortProofs Gen.GraphUtilsGen.
-From CGV Require Resolve.NameStep.
 Import ListNotations.
 Open Scope Z_scope.
+
+(** ------------------------------------------------------------------ graph facts (kept local: this file depends on
+    Base, GraphOps, SortProofs and the generated file only) *)
+Lemma st_gfind_has g k : has_node g k = true <-> In k (node_keys g).
+Proof.
+  unfold has_node. induction g as [|n r IH]; cbn; [split; [discriminate|tauto]|].
+  destruct (Z.eqb_spec (nk n) k) as [E|N]; [split; auto|]. rewrite IH. split; [auto|intros [H|H]; [contradiction|exact H]].
+Qed.
+Lemma st_gfind_nodup g n : NoDup (node_keys g) -> In n g -> gfind (nk n) g = Some n.
+Proof.
+  induction g as [|m r IH]; cbn; [contradiction|]. intros ND [->|I].
+  - now rewrite Z.eqb_refl.
+  - inversion ND as [|? ? NI ND']; subst. destruct (Z.eqb_spec (nk m) (nk n)) as [E|_]; [|auto].
+    exfalso. apply NI. rewrite E. unfold node_keys. now apply in_map.
+Qed.
+Lemma st_keys_gupdate k f g : (forall n, nk (f n) = nk n) -> node_keys (gupdate k f g) = node_keys g.
+Proof.
+  intros Hf. unfold node_keys. induction g as [|n r IH]; cbn; [reflexivity|].
+  destruct (Z.eqb (nk n) k); cbn; [now rewrite Hf|now rewrite IH].
+Qed.
+Lemma st_nodup_snoc (l : list Z) x : NoDup l -> ~ In x l -> NoDup (l ++ [x]).
+Proof.
+  intros Hl Hx. induction Hl as [|y r Hy Hr IH]; cbn; [repeat constructor; intros []|].
+  constructor.
+  - intros X. apply in_app_or in X as [X|[X|[]]]; [contradiction|]. apply Hx. now left.
+  - apply IH. intros X. apply Hx. now right.
+Qed.
+Lemma st_ensure_nodup g k : NoDup (node_keys g) ->
+  NoDup (node_keys (if has_node g k then g else g ++ [{| nk := k; na := []; nadj := [] |}])).
+Proof.
+  intros H. destruct (has_node g k) eqn:E; [exact H|]. unfold node_keys. rewrite map_app. cbn [map nk].
+  apply st_nodup_snoc; [exact H|]. intros X. apply st_gfind_has in X. congruence.
+Qed.
+Lemma st_add_node_nodup g k a : NoDup (node_keys g) -> NoDup (node_keys (add_node g k a)).
+Proof.
+  intros H. unfold add_node. destruct (has_node g k) eqn:E; [now rewrite st_keys_gupdate by reflexivity|].
+  unfold node_keys. rewrite map_app. cbn [map nk]. apply st_nodup_snoc; [exact H|]. intros X. apply st_gfind_has in X. congruence.
+Qed.
+Lemma st_add_edge_nodup g u v d : NoDup (node_keys g) -> NoDup (node_keys (add_edge g u v d)).
+Proof. intros H. unfold add_edge. rewrite !st_keys_gupdate by reflexivity. now apply st_ensure_nodup, st_ensure_nodup. Qed.
+Lemma st_fold_nodup {A} (f : graph -> A -> graph) : (forall g x, NoDup (node_keys g) -> NoDup (node_keys (f g x))) ->
+  forall l g, NoDup (node_keys g) -> NoDup (node_keys (fold_left f l g)).
+Proof. intros Hf. induction l as [|x r IH]; cbn [fold_left]; intros g H; [exact H|]. apply IH, Hf, H. Qed.
+Lemma st_relabel_copy_nodup g m : NoDup (node_keys (relabel_copy g m)).
+Proof.
+  unfold relabel_copy. apply st_fold_nodup; [intros; now apply st_add_edge_nodup|].
+  apply st_fold_nodup; [intros h x Hh; now rewrite st_keys_gupdate by reflexivity|].
+  apply st_fold_nodup; [intros; now apply st_add_node_nodup|constructor].
+Qed.
 
 (** ------------------------------------------------------------------ dict facts *)
 Lemma zd_get_zmap m k : zd_get m k = zmap_get m k.
@@ -207,10 +255,234 @@ Proof.
   assert (RH : Forall (fun kv : Z * pyval => ref_ok (snd kv)) (get_node_attributes h (S "ez_isomer_atoms"))).
   { apply all_na_attr. apply all_na_relabel; [exact I|exact RM]. }
   pose proof (ref_loop m _ RH true []) as R. cbn [map app] in R.
-  specialize (R (attr_keys_nodup h _ (NameStep.relabel_copy_nodup g m))).
+  specialize (R (attr_keys_nodup h _ (st_relabel_copy_nodup g m))).
   fold (ref_body m).
   destruct (GraphOps.map_res (fun kv : Z * pyval => v' <- remap_val m (snd kv) ;; Ok (fst kv, v')) _) as [nd|e]; cbn [bind].
   - destruct R as [b' R]. rewrite R. cbn [bind app]. unfold nx_set_node_attributes, dict_truthy.
     destruct nd; reflexivity.
   - rewrite R. reflexivity.
+Qed.
+
+(** ================================================================== merge_graphs *)
+(** representation invariants of a networkx graph (a dict of nodes, each with a dict of neighbours) *)
+Definition adj_ok (g : graph) : Prop :=
+  NoDup (node_keys g) /\ (forall n, In n g -> NoDup (map fst (nadj n))) /\
+  (forall n w, In n g -> In w (map fst (nadj n)) -> In w (node_keys g)).
+
+Fixpoint corr_from (s : Z) (ks : list Z) : list (Z * Z) :=
+  match ks with [] => [] | k :: r => (k, s) :: corr_from (s + 1) r end.
+Lemma corr_from_combine off ks : forall a,
+  combine ks (map (fun i => off + 1 + Z.of_nat i) (seq a (length ks))) = corr_from (off + 1 + Z.of_nat a) ks.
+Proof.
+  induction ks as [|k r IH]; intros a; cbn [length seq map combine corr_from]; [reflexivity|].
+  rewrite IH. do 2 f_equal. lia.
+Qed.
+Lemma correspondence_from off g : correspondence off g = corr_from (off + 1) (node_keys g).
+Proof.
+  unfold correspondence. rewrite <- (map_length nk g). fold (node_keys g). rewrite corr_from_combine. f_equal. cbn. lia.
+Qed.
+Lemma corr_from_snoc ks k : forall s, corr_from s (ks ++ [k]) = corr_from s ks ++ [(k, s + Z.of_nat (length ks))].
+Proof.
+  induction ks as [|x r IH]; intros s; cbn [app corr_from length].
+  - cbn. now rewrite Z.add_0_r.
+  - rewrite IH. cbn [app]. replace (s + 1 + Z.of_nat (length r)) with (s + Z.of_nat (Datatypes.S (length r))) by lia. reflexivity.
+Qed.
+Lemma corr_from_keys ks : forall s, map fst (corr_from s ks) = ks.
+Proof. induction ks as [|x r IH]; intros s; cbn; [reflexivity|]. now rewrite IH. Qed.
+Lemma corr_from_get pre k rest : ~ In k pre -> forall s,
+  map_get (corr_from s (pre ++ k :: rest)) k = s + Z.of_nat (length pre).
+Proof.
+  unfold map_get. induction pre as [|x r IH]; intros NI s; cbn [app corr_from find fst snd length].
+  - rewrite Z.eqb_refl. cbn. lia.
+  - destruct (Z.eqb_spec x k) as [->|N]; [exfalso; apply NI; now left|].
+    rewrite IH by (intros X; apply NI; now right). lia.
+Qed.
+Lemma zd_getitem_map_get (m : list (Z * Z)) u : In u (map fst m) -> zd_getitem m u = Ok (map_get m u).
+Proof.
+  unfold zd_getitem, map_get. induction m as [|[a b] r IH]; cbn [map fst In zd_get find]; [contradiction|].
+  intros H. destruct (Z.eqb_spec a u) as [->|N]; [reflexivity|]. apply IH. destruct H; [contradiction|assumption].
+Qed.
+Lemma enumerate_from_cons {A} s (x : A) l : enumerate_from s (x :: l) = (s, x) :: enumerate_from (s + 1) l.
+Proof.
+  unfold enumerate_from. cbn [length seq map combine]. f_equal; [f_equal; lia|].
+  rewrite <- seq_shift, map_map. f_equal. apply map_ext. intros i. lia.
+Qed.
+
+(** the values of 'ez_isomer_atoms' on which model and source agree in merge_graphs: the source evaluates
+    v[0] + offset BEFORE v[1] (a one-element list with a non-number raises TypeError, the model IndexError);
+    it may index a str or a dict (the model answers TypeError) *)
+Definition ez_modelled (v : pyval) : Prop :=
+  match v with
+  | VList [x] | VTup [x] => exists z, as_int x = Ok z
+  | VStr [] | VDict _ => False
+  | _ => True
+  end.
+Definition ez_values_modelled (g : graph) : Prop :=
+  all_na (fun d => match aget (S "ez_isomer_atoms") d with Some v => ez_modelled v | None => True end) g.
+
+Definition merge_body1 (x3 x4 : Z) (x1 : graph) :=
+  (fun (st_ : list (Z * Z) * graph) (it_ : Z * Z) => let '(x6, x0) := st_ in let '(x7, x8) := it_ in
+  let x6 := zd_set x6 x8 x7 in
+  t12_ <- nx_node_attrs x1 x8 ;; let x9 := t12_ in
+  t13_ <- py_add_pv_int (attrs_get x9 (S "fragid") (VInt (0))) x3 ;; let x9 := aset (S "fragid") (VList (map (fun e_ => (VInt e_)) [t13_])) x9 in
+  x9 <- (if (ahas (S "ez_isomer_atoms") x9) then (t14_ <- attrs_getitem x9 (S "ez_isomer_atoms") ;; t15_ <- py_getitem_pv t14_ 0 ;; t16_ <- py_add_pv_int t15_ x4 ;; t17_ <- attrs_getitem x9 (S "ez_isomer_atoms") ;; t18_ <- py_getitem_pv t17_ 1 ;; t19_ <- py_add_pv_int t18_ x4 ;; let x9 := aset (S "ez_isomer_atoms") (VTup [(VInt (fst ((t16_ + (1)), (t19_ + (1))))); (VInt (snd ((t16_ + (1)), (t19_ + (1)))))]) x9 in
+  Ok (x9)) else (Ok (x9))) ;;
+  let x0 := nx_add_node x0 x7 x9 in
+  Ok (x6, x0)).
+
+Lemma as_int_err v e : as_int v = Err e -> e = EType.
+Proof. destruct v; cbn; congruence. Qed.
+
+Lemma shift_ez_spec off a : match aget (S "ez_isomer_atoms") a with Some v => ez_modelled v | None => True end ->
+  (if ahas (S "ez_isomer_atoms") a
+   then t14_ <- attrs_getitem a (S "ez_isomer_atoms") ;; t15_ <- py_getitem_pv t14_ 0 ;; t16_ <- py_add_pv_int t15_ off ;;
+        t17_ <- attrs_getitem a (S "ez_isomer_atoms") ;; t18_ <- py_getitem_pv t17_ 1 ;; t19_ <- py_add_pv_int t18_ off ;;
+        Ok (aset (S "ez_isomer_atoms") (VTup [VInt (fst (t16_ + 1, t19_ + 1)); VInt (snd (t16_ + 1, t19_ + 1))]) a)
+   else Ok a) = shift_ez (off + 1) a.
+Proof.
+  unfold shift_ez, ahas, attrs_getitem. destruct (aget (S "ez_isomer_atoms") a) as [v|]; [|reflexivity].
+  cbn [of_option bind]. intros H. unfold py_add_pv_int.
+  destruct v as [| | | |s|l|l|d]; cbn in H |- *; try reflexivity; try contradiction.
+  - destruct s; [contradiction|reflexivity].
+  - destruct l as [|x [|y r]]; cbn; [reflexivity| |].
+    + destruct H as [z ->]. reflexivity.
+    + destruct (as_int x) as [x'|e] eqn:Ex; cbn [bind]; [|reflexivity].
+      change (Pos.to_nat 1) with 1%nat. cbn [nth_error of_option bind].
+      destruct (as_int y) as [y'|e] eqn:Ey; cbn [bind]; [|reflexivity]. now rewrite <- !Z.add_assoc.
+  - destruct l as [|x [|y r]]; cbn; [reflexivity| |].
+    + destruct H as [z ->]. reflexivity.
+    + destruct (as_int x) as [x'|e] eqn:Ex; cbn [bind]; [|reflexivity].
+      change (Pos.to_nat 1) with 1%nat. cbn [nth_error of_option bind].
+      destruct (as_int y) as [y'|e] eqn:Ey; cbn [bind]; [|reflexivity]. now rewrite <- !Z.add_assoc.
+Qed.
+
+Lemma merge_body1_spec fo off tgt corr acc idx n : node_attrs tgt (nk n) = Ok (na n) ->
+  match aget (S "ez_isomer_atoms") (na n) with Some v => ez_modelled v | None => True end ->
+  merge_body1 fo off tgt (corr, acc) (idx, nk n)
+  = (a <- merge_node (off + 1) fo (na n) ;; Ok (zd_set corr (nk n) idx, add_node acc idx a)).
+Proof.
+  intros NA EZ. unfold merge_body1, nx_node_attrs. rewrite NA. cbn [bind]. unfold merge_node, attrs_get, py_add_pv_int.
+  assert (F : (match aget (S "fragid") (na n) with Some v => as_int v | None => Ok 0 end)
+              = as_int (match aget (S "fragid") (na n) with Some v => v | None => VInt 0 end))
+    by (destruct (aget (S "fragid") (na n)); reflexivity).
+  rewrite F. destruct (as_int _) as [f|e]; cbn [bind map]; [|reflexivity].
+  set (a' := aset (S "fragid") (VList [VInt (f + fo)]) (na n)).
+  assert (EZ' : match aget (S "ez_isomer_atoms") a' with Some v => ez_modelled v | None => True end).
+  { subst a'. rewrite aget_aset_other; [exact EZ|]. intros X. apply (f_equal (@length _)) in X. cbn in X. discriminate. }
+  rewrite <- (shift_ez_spec off a' EZ').
+  reflexivity.
+Qed.
+
+Lemma merge_loop1 fo off tgt : NoDup (node_keys tgt) -> ez_values_modelled tgt ->
+  forall suf pre acc, tgt = pre ++ suf ->
+  fold_res (merge_body1 fo off tgt) (enumerate_from (off + 1 + Z.of_nat (length pre)) (node_keys suf)) (corr_from (off + 1) (node_keys pre), acc)
+  = (src1 <- fold_res (fun acc n => a <- merge_node (off + 1) fo (na n) ;; Ok (add_node acc (map_get (correspondence off tgt) (nk n)) a)) suf acc ;;
+     Ok (correspondence off tgt, src1)).
+Proof.
+  intros ND EZ. induction suf as [|n r IH]; intros pre acc E.
+  - cbn. rewrite app_nil_r in E. subst pre. now rewrite correspondence_from.
+  - cbn [node_keys map]. rewrite enumerate_from_cons. cbn [fold_res].
+    assert (In_n : In n tgt) by (rewrite E; apply in_or_app; right; now left).
+    rewrite merge_body1_spec.
+    2:{ unfold node_attrs. now rewrite (st_gfind_nodup tgt n ND In_n). }
+    2:{ unfold ez_values_modelled, all_na in EZ. rewrite Forall_forall in EZ. exact (EZ n In_n). }
+    assert (NI : ~ In (nk n) (node_keys pre)).
+    { rewrite E in ND. unfold node_keys in ND. rewrite map_app in ND. cbn [map] in ND. now apply NoDup_remove_2 in ND as X; intros Y; apply X; apply in_or_app; left. }
+    assert (G : map_get (correspondence off tgt) (nk n) = off + 1 + Z.of_nat (length pre)).
+    { rewrite correspondence_from, E. unfold node_keys. rewrite map_app. cbn [map]. rewrite corr_from_get by exact NI. now rewrite map_length. }
+    rewrite G. destruct (merge_node (off + 1) fo (na n)) as [a|e]; cbn [bind]; [|reflexivity].
+    specialize (IH (pre ++ [n]) (add_node acc (off + 1 + Z.of_nat (length pre)) a)).
+    rewrite <- app_assoc in IH. specialize (IH E).
+    rewrite app_length in IH. cbn [length] in IH. unfold node_keys in IH at 2. rewrite map_app in IH. cbn [map] in IH.
+    rewrite corr_from_snoc, map_length in IH.
+    rewrite zd_set_fresh by (now rewrite corr_from_keys).
+    replace (off + 1 + Z.of_nat (length pre) + 1) with (off + 1 + Z.of_nat (length pre + 1)) by lia.
+    exact IH.
+Qed.
+
+(** ------------------------------------------------------------------ the edge loop *)
+Definition merge_body2 (x6 : list (Z * Z)) (x1 : graph) :=
+  (fun (st_ : graph) (it_ : Z * Z) => let x0 := st_ in let '(x10, x11) := it_ in
+  t20_ <- zd_getitem x6 x10 ;; t21_ <- zd_getitem x6 x11 ;; x0 <- (if (negb (Z.eqb t20_ t21_)) then (t22_ <- nx_edge_attrs x1 (fst (x10, x11)) (snd (x10, x11)) ;; let x12 := t22_ in
+  t23_ <- zd_getitem x6 x10 ;; t24_ <- zd_getitem x6 x11 ;; let x0 := nx_add_edge x0 t23_ t24_ x12 in
+  Ok (x0)) else (Ok (x0))) ;;
+  Ok (x0)).
+Lemma merge_body2_spec corr tgt acc u v d : In u (map fst corr) -> In v (map fst corr) -> edge_attrs tgt u v = Ok d ->
+  merge_body2 corr tgt acc (u, v)
+  = Ok (if Z.eqb (map_get corr u) (map_get corr v) then acc else add_edge acc (map_get corr u) (map_get corr v) d).
+Proof.
+  intros Hu Hv Hd. unfold merge_body2, nx_edge_attrs, nx_add_edge. rewrite !zd_getitem_map_get by assumption.
+  cbn [bind fst snd]. rewrite Hd. cbn [bind]. now destruct (Z.eqb _ _).
+Qed.
+Lemma merge_loop2 corr tgt es : Forall (fun e : Z * Z * attrs => In (fst (fst e)) (map fst corr) /\ In (snd (fst e)) (map fst corr)
+                                           /\ edge_attrs tgt (fst (fst e)) (snd (fst e)) = Ok (snd e)) es ->
+  forall acc, fold_res (merge_body2 corr tgt) (map (fun e => (fst (fst e), snd (fst e))) es) acc
+  = Ok (fold_left (fun acc e => let '(u, v, d) := e in
+                     if Z.eqb (map_get corr u) (map_get corr v) then acc
+                     else add_edge acc (map_get corr u) (map_get corr v) d) es acc).
+Proof.
+  induction 1 as [|[[u v] d] r [Hu [Hv Hd]] Hr IH]; intros acc; cbn [map fold_res fold_left fst snd]; [reflexivity|].
+  cbn [fst snd] in *. rewrite (merge_body2_spec corr tgt acc u v d Hu Hv Hd). cbn [bind]. apply IH.
+Qed.
+
+Lemma edges_from_in g : forall seen e, In e (edges_from g seen) ->
+  exists n, In n g /\ fst (fst e) = nk n /\ In (snd (fst e), snd e) (nadj n).
+Proof.
+  induction g as [|n r IH]; intros seen e H; cbn in H; [contradiction|].
+  apply in_app_or in H as [H|H].
+  - apply in_flat_map in H as [[w a] [Hw He]]. cbn in He. destruct (existsb _ seen); [contradiction|].
+    destruct He as [<-|[]]. exists n. cbn. repeat split; [now left|exact Hw].
+  - destruct (IH _ _ H) as [m [Hm X]]. exists m. split; [now right|exact X].
+Qed.
+Lemma adj_get_in v d l : NoDup (map fst l) -> In (v, d) l -> adj_get v l = Some d.
+Proof.
+  induction l as [|[w a] r IH]; cbn; intros ND H; [contradiction|]. inversion ND as [|? ? NI ND']; subst.
+  destruct H as [H|H].
+  - inversion H; subst. now rewrite Z.eqb_refl.
+  - destruct (Z.eqb_spec w v) as [->|N]; [|now apply IH]. exfalso. apply NI. change v with (fst (v, d)). now apply in_map.
+Qed.
+Lemma edges_lookup g : adj_ok g ->
+  Forall (fun e : Z * Z * attrs => In (fst (fst e)) (node_keys g) /\ In (snd (fst e)) (node_keys g)
+                                   /\ edge_attrs g (fst (fst e)) (snd (fst e)) = Ok (snd e)) (edges_data g).
+Proof.
+  intros [ND [AD CL]]. apply Forall_forall. intros [[u v] d] H. apply edges_from_in in H as [n [Hn [Hu Hv]]]. cbn [fst snd] in *.
+  subst u. repeat split.
+  - unfold node_keys. now apply in_map.
+  - apply (CL n v Hn). change v with (fst (v, d)). now apply in_map.
+  - unfold edge_attrs. rewrite (st_gfind_nodup g n ND Hn). now rewrite (adj_get_in v d (nadj n) (AD n Hn) Hv).
+Qed.
+
+Theorem merge_is_source : forall src tgt, adj_ok tgt -> ez_values_modelled tgt ->
+  gen_merge_graphs src tgt = GraphOps.merge_graphs src tgt.
+Proof.
+  intros src tgt OK EZ. pose proof OK as [ND _].
+  unfold gen_merge_graphs, GraphOps.merge_graphs, merge_offsets.
+  assert (OFF : (if Z.eqb (nx_len src) 0 then Ok (0, -1, 0)
+                 else t1_ <- py_max (nx_nodes src) ;; t2_ <- nx_node_attrs src t1_ ;;
+                      t3_ <- py_max_pv (attrs_get t2_ (S "fragid") (VList (map (fun e_ => VInt e_) [0]))) ;; Ok (t3_ + 1, t1_, t1_))
+                = (p <- match src with
+                        | [] => Ok (-1, 0)
+                        | n0 :: r => let mx := zmax_list (node_keys r) (nk n0) in
+                            a <- node_attrs src mx ;;
+                            fids <- match aget (S "fragid") a with Some v => ints_of v | None => Ok [0] end ;;
+                            m <- py_max fids ;; Ok (mx, m + 1)
+                        end ;; Ok (snd p, fst p, if Z.eqb (nx_len src) 0 then 0 else fst p))).
+  { destruct src as [|n0 r]; [reflexivity|]. unfold nx_len. cbn [length]. rewrite Nat2Z.inj_succ.
+    destruct (Z.eqb_spec (Z.succ (Z.of_nat (length r))) 0) as [X|_]; [lia|].
+    unfold nx_nodes, nx_node_attrs, py_max_pv, attrs_get. cbn [node_keys map py_max bind]. fold (node_keys r).
+    destruct (node_attrs (n0 :: r) _) as [a|e]; cbn [bind]; [|reflexivity].
+    destruct (aget (S "fragid") a) as [v|]; cbn [bind].
+    - destruct (ints_of v) as [l|e]; cbn [bind]; [|reflexivity]. destruct (py_max l); reflexivity.
+    - reflexivity. }
+  cbv zeta in OFF |- *. rewrite OFF. clear OFF.
+  destruct (match src with [] => _ | _ => _ end) as [[off fo]|e]; cbn [bind fst snd]; [|reflexivity].
+  unfold py_enumerate, nx_nodes.
+  match goal with |- bind (fold_res ?f _ _) _ = _ => change f with (merge_body1 fo off tgt) end.
+  pose proof (merge_loop1 fo off tgt ND EZ tgt [] src eq_refl) as L1. cbn [length node_keys map corr_from] in L1.
+  replace (off + 1 + Z.of_nat 0) with (off + 1) in L1 by (cbn; lia). fold (node_keys tgt) in L1. rewrite L1. clear L1.
+  destruct (fold_res _ tgt src) as [src1|e]; cbn [bind]; [|reflexivity].
+  match goal with |- bind (fold_res ?f _ _) _ = _ => change f with (merge_body2 (correspondence off tgt) tgt) end.
+  unfold nx_edges, edges_list.
+  rewrite merge_loop2; [reflexivity|].
+  rewrite correspondence_from, corr_from_keys. now apply edges_lookup.
 Qed.
